@@ -25,6 +25,9 @@ type HOutput struct {
 	Secret  string
 	R       *Scalar
 	Witness string
+	// ProofWitness: for an output with a P2PK/HTLC secret (SIG_INPUTS), the witness that unlocks
+	// the resulting proof; copied to HProof.Witness by Unblind.
+	ProofWitness string
 }
 
 func (o *HOutput) J() map[string]any {
@@ -233,6 +236,37 @@ func (w *World) NewOutput(amount uint64, id, secret string) *HOutput {
 	return o
 }
 
+// NewLockedOutputs: outputs whose secrets are NUT-10 spending conditions (P2PK, or HTLC when htlc)
+// with SIG_INPUTS semantics, together with the witness that will unlock each resulting proof.
+func (w *World) NewLockedOutputs(amounts []uint64, id string, htlc bool) []*HOutput {
+	if w.LockRing == nil {
+		w.LockRing = NewKeyRing(2)
+	}
+	outs := make([]*HOutput, len(amounts))
+	for i, a := range amounts {
+		c := &LockCfg{NSigs: -1, LockKey: 0, Data: w.LockRing.PubHex(0)}
+		pre := ""
+		if htlc {
+			pre = randHex(32)
+			pb, _ := hex.DecodeString(pre)
+			h := sha256.Sum256(pb)
+			c = &LockCfg{HTLC: true, NSigs: -1, Data: hex.EncodeToString(h[:]), Pubkeys: []int{1}}
+			c.NSigs = 1
+		}
+		secret := c.Secret(w.LockRing)
+		o := w.NewOutput(a, id, secret)
+		if htlc {
+			wj, _ := json.Marshal(map[string]any{"preimage": pre, "signatures": []string{SignMsg(w.LockRing.Priv[1], []byte(secret), 0)}})
+			o.ProofWitness = string(wj)
+		} else {
+			wj, _ := json.Marshal(map[string]any{"signatures": []string{SignMsg(w.LockRing.Priv[0], []byte(secret), 0)}})
+			o.ProofWitness = string(wj)
+		}
+		outs[i] = o
+	}
+	return outs
+}
+
 func (w *World) NewOutputs(amounts []uint64, id string) []*HOutput {
 	outs := make([]*HOutput, len(amounts))
 	for i, a := range amounts {
@@ -281,7 +315,7 @@ func (w *World) Unblind(mint string, outs []*HOutput, sigs []any) []*HProof {
 		if err != nil {
 			continue
 		}
-		p := &HProof{Amount: uint64(amtf), ID: id, Secret: outs[i].Secret, C: C, R: outs[i].R, B_: outs[i].B_, Mint: mint}
+		p := &HProof{Amount: uint64(amtf), ID: id, Secret: outs[i].Secret, C: C, R: outs[i].R, B_: outs[i].B_, Mint: mint, Witness: outs[i].ProofWitness}
 		if d, ok := sm["dleq"].(map[string]any); ok {
 			p.E, _ = d["e"].(string)
 			p.S, _ = d["s"].(string)
